@@ -43,6 +43,7 @@ class SymEval:
         self.budget = budget
         self.track_let_blocks = False
         self.cps_lets = True
+        self.bind_struct_lets = True
 
     # ------------------------------------------------------------------ values
     def subst(self, e, env):
@@ -91,6 +92,13 @@ class SymEval:
             t = self.value(e0['t'], envt)
             el = self.value(e0['e'], env) if 'e' in e0 else ('v', {'k': 'unit'})
             return ('ite', c, t, el)
+        if k == 'mcall' and e0.get('name') in ('map_or', 'map_or_else', 'unwrap_or', 'unwrap_or_else', 'is_some_and') and \
+                (strip(e0['recv']).get('ty') or '' if isinstance(strip(e0['recv']), dict) else '').startswith('std::option::Option<'):
+            # Option combinators as the decision they are: `o.map_or_else(|| d, |x| f(x))` is
+            # `if let Some(x) = o { f(x) } else { d }`
+            t_ = self._option_combinator(e0, env)
+            if t_ is not None:
+                return t_
         if k == 'mcall' and e0.get('name') == 'then_some' and len(e0.get('args', [])) == 1 and \
                 (strip(e0['recv']).get('ty') if isinstance(strip(e0['recv']), dict) else None) == 'bool':
             # `cond.then_some(x)` is `if cond { Some(x) } else { None }`
@@ -106,6 +114,73 @@ class SymEval:
                 return inner
             return ('v', self.subst(e0, env))
         return ('v', self.subst(e0, env))
+
+    def _option_combinator(self, e0, env):
+        name, args = e0['name'], e0.get('args', [])
+        recv = e0['recv']
+
+        def closure_of(a):
+            a = strip(a)
+            return a if isinstance(a, dict) and a.get('k') == 'closure' else None
+
+        def apply1(fn, argname_expr):
+            cl = closure_of(fn)
+            if cl is not None and len(cl.get('params', [])) == 1 and cl['params'][0].get('k') == 'bind':
+                env2 = dict(env)
+                env2.pop(cl['params'][0]['name'], None)
+                return cl['params'][0]['name'], self.value(cl['body'], env2)
+            f0 = strip(fn)
+            if isinstance(f0, dict) and f0.get('k') == 'path':
+                # a function / constructor by name: `Some`, `Self::f`
+                return '__x', ('v', {'k': 'call', 'f': f0, 'args': [{'k': 'local', 'name': '__x'}]})
+            return None, None
+
+        def apply0(fn):
+            cl = closure_of(fn)
+            if cl is not None and not cl.get('params'):
+                return self.value(cl['body'], env)
+            return None
+        some_v = none_v = pname = None
+        if name == 'map_or' and len(args) == 2:
+            none_v = self.value(args[0], env)
+            pname, some_v = apply1(args[1], None)
+        elif name == 'map_or_else' and len(args) == 2:
+            none_v = apply0(args[0])
+            pname, some_v = apply1(args[1], None)
+        elif name == 'unwrap_or' and len(args) == 1:
+            none_v = self.value(args[0], env)
+            pname, some_v = '__x', ('v', {'k': 'local', 'name': '__x'})
+        elif name == 'unwrap_or_else' and len(args) == 1:
+            none_v = apply0(args[0])
+            pname, some_v = '__x', ('v', {'k': 'local', 'name': '__x'})
+        elif name == 'is_some_and' and len(args) == 1:
+            none_v = ('v', {'k': 'lit', 't': 'bool', 'v': False})
+            pname, some_v = apply1(args[0], None)
+        if some_v is None or none_v is None or pname is None:
+            return None
+        pat = {'k': 'ptstruct', 'path': {'k': 'path', 'name': 'Some', 'def': 'std::option::Option::Some', 'dk': 'Ctor(Variant, Fn)'},
+               'pats': [{'k': 'bind', 'name': pname, 'mode': ''}]}
+        rv = self.value(recv, env)
+
+        def on(t):
+            if t[0] == 'ite':
+                return ('ite', t[1], on(t[2]), on(t[3]))
+            st_, binds = self.static_pat(pat, t[1])
+            if st_ is True:
+                # substitute the payload for the closure parameter
+                payload = binds.get(pname, ('v', {'k': 'local', 'name': pname}))[1]
+                return self._subst_tree(some_v, pname, payload)
+            if st_ is False:
+                return none_v
+            return ('ite', ('pat', pat, t[1]), some_v, none_v)
+        return on(rv)
+
+    def _subst_tree(self, t, name, expr):
+        if t[0] == 'ite':
+            c = t[1]
+            c2 = (c[0], self.subst(c[1], {name: ('v', expr)})) if c[0] == 'e' else (c[0], c[1], self.subst(c[2], {name: ('v', expr)}))
+            return ('ite', c2, self._subst_tree(t[2], name, expr), self._subst_tree(t[3], name, expr))
+        return ('v', self.subst(t[1], {name: ('v', expr)}) if isinstance(t[1], dict) else t[1])
 
     def _has_return(self, e):
         hit = []
@@ -177,6 +252,13 @@ class SymEval:
             p0 = p0['p']
         if not isinstance(s0, dict) or not isinstance(p0, dict):
             return None, {}
+        if p0.get('k') == 'bind' and 'sub' in p0:
+            # `name @ PAT`
+            st_, b_ = SymEval.static_pat(p0['sub'], scrut)
+            if st_ is True:
+                b_ = dict(b_)
+                b_[p0['name']] = ('v', s0)
+            return st_, b_
 
         def ctor_of_value(v):
             # variants are compared by name: pattern and value have the same type in a type-checked program, and the
@@ -206,6 +288,50 @@ class SymEval:
             return (p0.get('name') == cv), {}
         return None, {}
 
+    @staticmethod
+    def structural_binds(pat, scrut):
+        """what the names of a slice / struct pattern stand for, as expressions over the scrutinee:
+        `[first, .., last]` on `s` binds first to `s[0]`, last to `s[s.len() - 1]`; `S { a, b: c }` on `v` binds a to `v.a`"""
+        out = {}
+        p0 = pat
+        while isinstance(p0, dict) and p0.get('k') == 'pref':
+            p0 = p0['p']
+        if not isinstance(p0, dict) or not isinstance(scrut, dict):
+            return out
+
+        def name_of(sp):
+            while isinstance(sp, dict) and sp.get('k') == 'pref':
+                sp = sp['p']
+            if isinstance(sp, dict) and sp.get('k') == 'bind' and 'sub' not in sp:
+                return sp['name']
+            return None
+        if p0.get('k') == 'pslice':
+            for i_, sp in enumerate(p0.get('before', [])):
+                nm = name_of(sp)
+                if nm:
+                    out[nm] = ('v', {'k': 'index', 'e': scrut, 'i': {'k': 'lit', 't': 'int', 'v': i_}})
+            after = p0.get('after', [])
+            if not p0.get('rest'):
+                base = len(p0.get('before', []))
+                for j_, sp in enumerate(after):
+                    nm = name_of(sp)
+                    if nm:
+                        out[nm] = ('v', {'k': 'index', 'e': scrut, 'i': {'k': 'lit', 't': 'int', 'v': base + j_}})
+            else:
+                for j_, sp in enumerate(after):
+                    nm = name_of(sp)
+                    if nm:
+                        back = len(after) - j_
+                        out[nm] = ('v', {'k': 'index', 'e': scrut, 'i': {
+                            'k': 'binary', 'op': 'Sub', 'a': {'k': 'mcall', 'name': 'len', 'recv': scrut, 'args': []},
+                            'b': {'k': 'lit', 't': 'int', 'v': back}}})
+        elif p0.get('k') == 'pstruct':
+            for f in p0.get('fields', []):
+                nm = name_of(f.get('p'))
+                if nm:
+                    out[nm] = ('v', {'k': 'field', 'e': scrut, 'n': f['n']})
+        return out
+
     def match(self, m, env, kbody, _scrut=None):
         if _scrut is None:
             s0 = m['scrut']
@@ -232,6 +358,8 @@ class SymEval:
             if st is False:
                 return arms(i + 1)
             env_a = env
+            binds = dict(binds)
+            binds.update(self.structural_binds(pat, scrut))
             if binds:
                 env_a = dict(env)
                 env_a.update(binds)
@@ -348,6 +476,8 @@ class SymEval:
             else:
                 for n in names:
                     env2.pop(n, None)       # bound by a pattern: the local stands for itself
+                if 'init' in st and self.bind_struct_lets:
+                    env2.update(self.structural_binds(st['pat'], self.subst(st['init'], env)))
             return knext(env2)
         if k == 'assign':
             l = st['l']
@@ -511,3 +641,68 @@ def evaluate(tree, decide):
             return None
         tree = tree[2] if d else tree[3]
     return tree[1]
+
+
+class CallTrace(SymEval):
+    """records, per path, the calls whose callee name is in `names` (method calls and path calls), in order"""
+
+    def __init__(self, names, budget=20000):
+        super().__init__(None, budget=budget)
+        self.track_let_blocks = True
+        self.names = set(names)
+
+    def _scan(self, e, env):
+        hits = []
+
+        def v(n, anc):
+            if any(a.get('k') == 'closure' for a in anc):
+                return
+            nm = None
+            if n.get('k') == 'mcall':
+                nm = n.get('name')
+            elif n.get('k') == 'call' and isinstance(n.get('f'), dict) and n['f'].get('k') == 'path':
+                nm = n['f'].get('name')
+            if nm in self.names:
+                hits.append((nm, n))
+        if isinstance(e, dict):
+            H.walk(e, v)
+        if not hits:
+            return None
+        env2 = dict(env)
+        env2['#calls'] = tuple(env.get('#calls', ())) + tuple(hits)
+        return env2
+
+    def effect(self, st, env):
+        return self._scan(st, env)
+
+    def cond(self, c, env):
+        return super().cond(c, env)
+
+    def stmt(self, st, env, knext, kret, as_tail=None):
+        if isinstance(st, dict):
+            k = st.get('k')
+            tgt = None
+            if k == 'slet' and 'init' in st and not (isinstance(st['init'], dict) and st['init'].get('k') in ('if', 'match', 'block')):
+                tgt = st['init']
+            elif k == 'if':
+                tgt = st['c'] if not (isinstance(st['c'], dict) and st['c'].get('k') in ('block', 'match', 'if')) else None
+            elif k == 'match':
+                tgt = st['scrut'] if not (isinstance(st['scrut'], dict) and st['scrut'].get('k') in ('block', 'match', 'if')) else None
+            elif k in ('assign', 'ret'):
+                tgt = st.get('r', st.get('e'))
+            if tgt is not None:
+                e2 = self._scan(tgt, env)
+                if e2 is not None:
+                    env = e2
+        return super().stmt(st, env, knext, kret, as_tail)
+
+
+def call_paths(hfn, names):
+    """[(path conditions with polarity, [callee names in order])] for every way through the function"""
+    ev = CallTrace(names)
+    body = hfn['body']
+    tree = ev.seq(list(body.get('stmts', [])), body.get('expr'), {},
+                  lambda env, tail: ('v', {'k': 'end', 'calls': (ev._scan(tail, env) or env).get('#calls', ()) if tail is not None
+                                           else env.get('#calls', ())}),
+                  kret=lambda vt, env=None: ('v', {'k': 'ret', 'calls': (env or {}).get('#calls', ())}))
+    return [(path, [c[0] for c in leaf.get('calls', ())] if isinstance(leaf, dict) else []) for path, leaf in leaves(tree)]
